@@ -353,6 +353,11 @@ func (p *Path) intBinopConcrete(op token.Token, ii intInfo, x, y int64, yt types
 func (p *Path) floatBinop(op token.Token, x, y Value) Value {
 	xf, xok := x.(float64)
 	yf, yok := y.(float64)
+	if xok && yok && p.realMode && !math.IsNaN(xf) && !math.IsNaN(yf) && !math.IsInf(xf, 0) && !math.IsInf(yf, 0) {
+		// real mode: concrete operands are exact rationals too, so that concrete and
+		// symbolic computations of the same formula agree
+		xok, yok = false, false
+	}
 	if xok && yok {
 		switch op {
 		case token.ADD:
